@@ -5,7 +5,12 @@ import (
 	"fmt"
 	"io"
 	"runtime/debug"
+	"time"
 )
+
+// HangTimeout is the wall-clock watchdog for one execution of run. Executions take microseconds
+// to milliseconds; only a call that never returns trips it. It decides nothing else.
+var HangTimeout = 10 * time.Second
 
 // Hooks are the real pieces of cmd/pql under test.
 type Hooks struct {
@@ -36,7 +41,9 @@ func Execute(h Hooks, c Case, log *EventLog) (out Outcome) {
 		in = h.Multi(rcs)
 	}
 	w := &recWriter{log: log}
-	func() {
+	done := make(chan struct{})
+	go func() {
+		defer close(done)
 		defer func() {
 			if p := recover(); p != nil {
 				out.Panic = fmt.Sprintf("%v\n%s", p, debug.Stack())
@@ -60,6 +67,15 @@ func Execute(h Hooks, c Case, log *EventLog) (out Outcome) {
 			}
 		}
 	}()
+	timer := time.NewTimer(HangTimeout)
+	select {
+	case <-done:
+		timer.Stop()
+	case <-timer.C:
+		// run is still executing in its goroutine: nothing it owns may be touched any more
+		log.Add("RET hang")
+		return Outcome{Hang: true}
+	}
 	out.Stdout = string(w.buf)
 	out.Writes = w.writes
 	for _, r := range readers {
